@@ -160,6 +160,7 @@ def parseParams (js : String) : Params :=
     kind := jsonField js "kind",
     gate := jsonField js "gate" == "true",
     expiry := jsonField js "expiry" != "",
+    errs := jsonField js "errs" == "true",
     ctx := jsonField js "ctx" == "true",
     outcomes := parseNatList (jsonArrayField js "outcomes"),
     queues := (let a := jsonArrayField js "queues"; let inner := ((a.drop 1).dropEnd 1).toString
